@@ -1,7 +1,7 @@
 package main
 
 func init() {
-	for _, id := range []string{"C04", "C06", "C07", "C09", "C10", "C11", "C14", "C15", "C16", "C19", "C20"} {
+	for _, id := range []string{"C04", "C06", "C07", "C10", "C11", "C14", "C15", "C16", "C19", "C20"} {
 		notApplicable[id] = "not yet claimed: contracts for this property are still being written (see DESIGN.md); no check is registered"
 	}
 	notApplicable["C12"] = "command/response matching lives in goroutine, channel and timer interplay (onActiveEvent/onActiveRespondEvent/write); no sequential function contract within the verifier's subset carries the claim"
@@ -90,5 +90,16 @@ func init() {
 		Decided: "per call of completePack: no panic for any package number/total (including 0 and numbers beyond the announced total), the table's representation invariant " +
 			"is preserved, an out-of-range packet leaves the table untouched, a message is reported complete only when every slot of the record is non-empty",
 		Undecided: []string{"arrival orders, duplicates and interleavings over several calls (whole-history statement)", "delivery through connection.write and the handlers (goroutines)"},
+	})
+}
+
+func init() {
+	registerProp(&PropDef{
+		ID:    "C09",
+		Title: "Delivered messages are stable",
+		Roots: []string{"service.(*packageParse).unpack", "service.newTerminalMessage", "jt808.unescape", "jt808.(*JTMessage).Decode", "jt808.(*Header).decode", "service.(*packageParse).completePack"},
+		Decided: "ownership clauses: the raw frame, body and BCD phone of every message returned by unpack are disjoint from the caller's read buffer and from the pending-bytes buffer " +
+			"(up to its capacity, i.e. everything a later append can overwrite); unescape/Decode return sub-slices of their input or fresh storage; reassembled data is fresh",
+		Undecided: []string{"the timing half of the statement (reader vs writer goroutine) is moot once disjointness holds and is not explored"},
 	})
 }
